@@ -14,7 +14,8 @@ from fractions import Fraction
 from .common import Corr, flist, frac2s
 
 ID = "C14"
-LEAN_MODULES = ["TempestVerif.Props.C14", "TempestVerif.Props.C14Valid", "TempestVerif.Props.C14Resume", "TempestVerif.Props.C14Step"]
+LEAN_MODULES = ["TempestVerif.Props.C14", "TempestVerif.Props.C14Valid", "TempestVerif.Props.C14Resume", "TempestVerif.Props.C14Step",
+                "TempestVerif.Props.C14Source"]
 RULE = ("(1) labels->modes: generated label vectors (n<=14, K_fit<=6; full coverage permuted, gaps, singletons, sorted/reversed) fed to the "
         "REAL ModeStatistics.from_particles with fit_mvstud replaced by a tagging stub (point id in coordinate 0; scripted dof: finite/inf/nan; "
         "generated dof_fallback) and np.random.choice on a tape; K, the member list of every mode, the exact sequence fed to every fit "
@@ -96,8 +97,12 @@ IDS = 64          # id i of a training particle is encoded as u[i,0] = (i + 0.5)
 
 
 def translators():
-    from translate import g1_constants        # DOF_FALLBACK, used by C14_dof_fallback_constant_pos
-    return [g1_constants.generate()]
+    """G1: DOF_FALLBACK (C14_dof_fallback_constant_pos).  G20: Gen/ModesSrc.lean is recompiled from /repo's modes.py
+       (mode_index, from_particles' label handling, the __init__ gate), steps/train.py (Trainer.run) and steps/resample.py on
+       every run, five independent sections; Props/C14Source.lean proves that Model.Modes / Cadence / CadenceX / ModeGate /
+       TrainStep are the generated terms"""
+    from translate import g1_constants, g20_modes
+    return [g1_constants.generate()] + g20_modes.generate_all()
 
 
 def _quiet():
